@@ -409,3 +409,133 @@ impl Seek for RoFile {
         self.0.seek(from)
     }
 }
+
+// ---------------------------------------------------------------------------
+// SparseFile: a backing store for files beyond 4 GiB
+
+use std::collections::HashMap;
+
+const PAGE: usize = 4096;
+
+/// Sparse in-memory file: only pages that hold a non-zero byte are stored, so a 4 GiB
+/// compound file whose streams are mostly zero costs a few megabytes.  Same semantics as
+/// `Cursor<Vec<u8>>` (writes past the end zero-extend, seeking past the end is allowed).
+#[derive(Default)]
+pub struct SparseState {
+    pub pages: HashMap<u64, Box<[u8; PAGE]>>,
+    pub len: u64,
+    pub calls: u64,
+}
+
+#[derive(Clone)]
+pub struct SparseShared(pub Arc<Mutex<SparseState>>);
+
+pub struct SparseFile {
+    st: SparseShared,
+    pos: u64,
+}
+
+impl SparseShared {
+    pub fn len(&self) -> u64 {
+        self.0.lock().unwrap().len
+    }
+    pub fn pages(&self) -> usize {
+        self.0.lock().unwrap().pages.len()
+    }
+    /// A second handle on the same bytes (for reopening while keeping the image).
+    pub fn handle(&self) -> SparseFile {
+        SparseFile { st: self.clone(), pos: 0 }
+    }
+    pub fn read_at(&self, off: u64, buf: &mut [u8]) {
+        let g = self.0.lock().unwrap();
+        for (i, b) in buf.iter_mut().enumerate() {
+            let o = off + i as u64;
+            *b = if o >= g.len { 0 } else { g.pages.get(&(o / PAGE as u64)).map(|p| p[(o % PAGE as u64) as usize]).unwrap_or(0) };
+        }
+    }
+}
+
+impl SparseFile {
+    pub fn new() -> (SparseFile, SparseShared) {
+        let st = SparseShared(Arc::new(Mutex::new(SparseState::default())));
+        (SparseFile { st: st.clone(), pos: 0 }, st)
+    }
+}
+
+impl Read for SparseFile {
+    fn read(&mut self, buf: &mut [u8]) -> io::Result<usize> {
+        let mut g = self.st.0.lock().unwrap();
+        g.calls += 1;
+        if self.pos >= g.len {
+            return Ok(0);
+        }
+        let n = buf.len().min((g.len - self.pos) as usize);
+        let mut done = 0;
+        while done < n {
+            let o = self.pos + done as u64;
+            let page = o / PAGE as u64;
+            let within = (o % PAGE as u64) as usize;
+            let k = (PAGE - within).min(n - done);
+            match g.pages.get(&page) {
+                Some(p) => buf[done..done + k].copy_from_slice(&p[within..within + k]),
+                None => buf[done..done + k].fill(0),
+            }
+            done += k;
+        }
+        self.pos += n as u64;
+        Ok(n)
+    }
+}
+
+impl Write for SparseFile {
+    fn write(&mut self, buf: &[u8]) -> io::Result<usize> {
+        let mut g = self.st.0.lock().unwrap();
+        g.calls += 1;
+        let n = buf.len();
+        let mut done = 0;
+        while done < n {
+            let o = self.pos + done as u64;
+            let page = o / PAGE as u64;
+            let within = (o % PAGE as u64) as usize;
+            let k = (PAGE - within).min(n - done);
+            let chunk = &buf[done..done + k];
+            let all_zero = chunk.iter().all(|&b| b == 0);
+            match g.pages.get_mut(&page) {
+                Some(p) => p[within..within + k].copy_from_slice(chunk),
+                None => {
+                    if !all_zero {
+                        let mut p = Box::new([0u8; PAGE]);
+                        p[within..within + k].copy_from_slice(chunk);
+                        g.pages.insert(page, p);
+                    }
+                }
+            }
+            done += k;
+        }
+        self.pos += n as u64;
+        if self.pos > g.len {
+            g.len = self.pos;
+        }
+        Ok(n)
+    }
+    fn flush(&mut self) -> io::Result<()> {
+        Ok(())
+    }
+}
+
+impl Seek for SparseFile {
+    fn seek(&mut self, from: SeekFrom) -> io::Result<u64> {
+        let mut g = self.st.0.lock().unwrap();
+        g.calls += 1;
+        let target: i128 = match from {
+            SeekFrom::Start(n) => n as i128,
+            SeekFrom::End(d) => g.len as i128 + d as i128,
+            SeekFrom::Current(d) => self.pos as i128 + d as i128,
+        };
+        if target < 0 || target > u64::MAX as i128 {
+            return Err(io::Error::new(ErrorKind::InvalidInput, "invalid seek to a negative or overflowing position"));
+        }
+        self.pos = target as u64;
+        Ok(self.pos)
+    }
+}
